@@ -162,6 +162,8 @@ def main():
     # a FLAT likelihood (every supported point has the same value: the posterior weights are nearly uniform, ESS ~ N): the
     # resampling / trimming branches a shortcut for "weights already uniform enough" would take
     jobs.append({"conf": dict(clustering=False, n_particles=8, target="tophat"), "seed": 1285 + ck.seed, "label": "flat likelihood (tophat)", "n_total": 32, "flags": FLAGS})
+    # a vectorised likelihood returning a single-precision batch: evidence and weights are still computed in double precision
+    jobs.append({"conf": dict(clustering=False, n_particles=8, evaluation="vector_f32"), "seed": 1287 + ck.seed, "label": "float32 likelihood batch", "n_total": 32, "flags": FLAGS[:4]})
     # a LONG history (more than 64 iterations, not a multiple of 64): tiny first temperature, many annealing steps
     jobs.append({"conf": dict(clustering=False, n_particles=8, target="needle"), "seed": 1280 + ck.seed, "label": "long-history (needle)", "n_total": 96, "flags": FLAGS[:4]})
     sc, traces = sysrun.system_part(ck, "C12", jobs, nontrivial)
